@@ -3,7 +3,7 @@ ones.  An `Exec` holds the real SCFG and a model of its top level; `apply(op)`
 performs one operation on both and raises models.Viol when they disagree.
 
 ops (JSON-able lists):
-  ["init", graph_json, prestage]           prestage: "flat" | "loop"
+  ["init", graph_json, prestage]           prestage: "flat" | "loop" | "branch"
   ["insert", kind, P, S]                   kind: Exit|Tail|Return|Fill|raw
   ["ctrl", P, S]
   ["join_returns"]
@@ -80,9 +80,13 @@ class Exec:
         g = gg.graph_from_json(graph_json)
         self.orig = g
         self.real = M.mk_scfg(g, "bytecode" if next(iter(g)).startswith("python_bytecode") else "plain")
-        if prestage == "loop":
+        if prestage in ("loop", "branch"):
             self._call(self.real.join_returns)
             self._call(self.real.restructure_loop)
+        if prestage == "branch":
+            # fully restructured: top-level predecessors are regions whose
+            # exiting blocks are regions themselves
+            self._call(self.real.restructure_branch)
 
     def _op_insert(self, kind, P, S):
         real = self.real
